@@ -213,3 +213,49 @@ pub fn calls_serde() -> Vec<Call> {
     }
     v
 }
+
+/// The operation table of the closure (every safe operation of the six types) as a call alphabet:
+/// two receiver values per type (an ordinary one, a range end) x a few operands per operand kind
+/// (ordinary, sign change, range end / NaN), filtered per property.
+pub fn calls_ops(small: bool, filter: &dyn Fn(crate::optable::Op) -> bool) -> Vec<Call> {
+    use crate::optable::*;
+    let w = world();
+    let limit_dt = 100_000_000i64 * US_DAY;
+    let tmin = w.cal.min_day as i64 * US_DAY;
+    let tmax = (w.cal.max_day as i64 + 1) * US_DAY - 1;
+    let states: [[Val; 2]; 6] = [
+        [Val::Date(18_717), Val::Date(w.cal.max_day)],
+        [Val::Time(86_399_999_999), Val::Time(0)],
+        [Val::Ts(1_617_235_199_500_000), Val::Ts(tmin)],
+        [Val::Ym(14), Val::Ym(2_136_000_000)],
+        [Val::Dt(3 * US_DAY + 3_723_000_004), Val::Dt(-limit_dt)],
+        [Val::Od(1_617_235_199_000_000), Val::Od(tmax - 999_999)],
+    ];
+    let mut v: Vec<Call> = Vec::new();
+    for &op in ALL_OPS {
+        if !filter(op) { continue; }
+        let (tag, kind, _) = op.sig();
+        let args: Vec<Arg> = match kind {
+            ArgKind::None => vec![Arg::None],
+            ArgKind::Unit => if small { [0usize, 2, 4, 5, 9, 11].into_iter().map(Arg::Unit).collect() } else { (0..12).map(Arg::Unit).collect() },
+            ArgKind::I32 => vec![Arg::I32(1), Arg::I32(-400), Arg::I32(i32::MAX)],
+            ArgKind::F64 => vec![Arg::F64(0.5), Arg::F64(-1.0 / 86_400.0), Arg::F64(f64::NAN), Arg::F64(1e300)],
+            ArgKind::Date => vec![Arg::V(Val::Date(0)), Arg::V(Val::Date(w.cal.max_day))],
+            ArgKind::Time => vec![Arg::V(Val::Time(1)), Arg::V(Val::Time(US_DAY - 1))],
+            ArgKind::Ts => vec![Arg::V(Val::Ts(-1)), Arg::V(Val::Ts(tmax))],
+            ArgKind::Od => vec![Arg::V(Val::Od(0))],
+            ArgKind::Ym => vec![Arg::V(Val::Ym(1)), Arg::V(Val::Ym(-13)), Arg::V(Val::Ym(2_136_000_000))],
+            ArgKind::Dt => vec![Arg::V(Val::Dt(-1)), Arg::V(Val::Dt(US_DAY)), Arg::V(Val::Dt(limit_dt))],
+        };
+        for (si, s) in states[tag as usize].into_iter().enumerate() {
+            if small && si == 1 { continue; }
+            for a in args.iter().copied() {
+                v.push(call(format!("{}.{op:?}({})", explorer::bfs::BfsState::show(&s), arg_show(&a)), move || match step_impl(s, op, a) {
+                    Out::Err(_) => "Err".to_string(),
+                    other => format!("{other:?}"),
+                }));
+            }
+        }
+    }
+    v
+}
